@@ -23,6 +23,7 @@ type Mutant struct {
 	Nth    int    `json:"nth,omitempty"`    // which occurrence of Old (1-based; 0 = must be unique)
 	Expect string `json:"expect,omitempty"` // substring of "rule/key" of an obligation that must be violated
 	Why    string `json:"why,omitempty"`
+	Benign bool   `json:"benign,omitempty"` // behaviour-preserving edit: the check must stay silent
 }
 
 type MutantResult struct {
@@ -32,6 +33,8 @@ type MutantResult struct {
 	Detected int      `json:"detected"`
 	Skipped  int      `json:"skipped"`
 	Missed   int      `json:"missed"`
+	Benign   int      `json:"benign_edits"`        // behaviour-preserving variants tried
+	FalseAlarms int   `json:"false_alarms_on_benign"`
 	Details  []string `json:"details"`
 }
 
@@ -155,6 +158,14 @@ func RunMutants(verifDir, repo, prop, exe string) MutantResult {
 				outs[i] = out{"skipped", m.ID + ": mutant does not type-check: " + strings.Join(hits, "; ")}
 				return
 			}
+			if m.Benign {
+				if len(hits) == 0 {
+					outs[i] = out{"benign-ok", m.ID + ": benign edit, check silent (as required)"}
+				} else {
+					outs[i] = out{"false-alarm", m.ID + ": FALSE ALARM on a behaviour-preserving edit: " + strings.Join(hits, ", ")}
+				}
+				return
+			}
 			if len(hits) == 0 {
 				outs[i] = out{"missed", m.ID + ": NOT DETECTED (" + m.File + ": " + m.Old + " -> " + m.New + ")"}
 				return
@@ -187,6 +198,12 @@ func RunMutants(verifDir, repo, prop, exe string) MutantResult {
 			res.Detected++
 		case "missed":
 			res.Applied++
+			res.Missed++
+		case "benign-ok":
+			res.Benign++
+		case "false-alarm":
+			res.Benign++
+			res.FalseAlarms++
 			res.Missed++
 		}
 		res.Details = append(res.Details, o.detail)
